@@ -1,5 +1,5 @@
 (* C09 - CTAP1/U2F responses are encoded in the U2F raw message layout. *)
-From Ctap Require Import Base Schema Wire Typed Procs Inst Tables ProcTables Finite FramingP WireP LayoutP FnShapes Shapes ObShapeU2fSer Deps ObDeps.
+From Ctap Require Import Base Schema Wire Typed Procs Inst Tables ProcTables Finite FramingP WireP LayoutP FnShapes Shapes ObShapeU2fSer Deps ObDeps PlainDecls ObPlainU2fResponses.
 Local Open Scope string_scope.
 Local Open Scope Z_scope.
 
@@ -72,6 +72,10 @@ Proof. exact generated_shapes_u2f_ser. Qed.
 Theorem c09_modelled_dependencies_pinned : deps_hold repo_lock_present lock_versions harness_lock_versions cargo_deps = true.
 Proof. exact generated_deps. Qed.
 
+(* the plain structures (no serde meaning of their own) whose member types the model relies on *)
+Theorem c09_plain_structures_unchanged_u2f_responses : plain_hold raw_decls plain_u2f_responses = true.
+Proof. exact generated_plain_u2f_responses. Qed.
+
 Eval vm_compute in "ASSUMPTIONS c09_parts". Print Assumptions c09_parts.
 Eval vm_compute in "ASSUMPTIONS c09_length_byte_exact". Print Assumptions c09_length_byte_exact.
 Eval vm_compute in "ASSUMPTIONS c09_generated_capacities". Print Assumptions c09_generated_capacities.
@@ -81,3 +85,4 @@ Eval vm_compute in "ASSUMPTIONS c09_prior_kept". Print Assumptions c09_prior_kep
 Eval vm_compute in "ASSUMPTIONS c09_pubkey". Print Assumptions c09_pubkey.
 Eval vm_compute in "ASSUMPTIONS c09_modelled_functions_unchanged_u2f_ser". Print Assumptions c09_modelled_functions_unchanged_u2f_ser.
 Eval vm_compute in "ASSUMPTIONS c09_modelled_dependencies_pinned". Print Assumptions c09_modelled_dependencies_pinned.
+Eval vm_compute in "ASSUMPTIONS c09_plain_structures_unchanged_u2f_responses". Print Assumptions c09_plain_structures_unchanged_u2f_responses.
